@@ -154,6 +154,9 @@ def expect(url, exp, params, allow):
     if sch not in ("amqp", "amqps", "AMQP"):
         return "err InvalidUrlScheme"
     # url crate lower-cases the scheme
+    # the secure-only entry points refuse EVERY amqp:// URL as insecure, whatever else is wrong with it
+    if not exp["secure"] and not allow:
+        return "err InsecureUrl"
     if exp["extra"]:
         return "err ExtraUrlPathSegments"
     hb, chmax, timeout, external = 60, 0, None, False
@@ -180,8 +183,6 @@ def expect(url, exp, params, allow):
                 return "err UrlInvalidAuthMechanism %s" % hx(v.encode())
         else:
             return "err UrlUnsupportedParameter %s" % hx(k.encode())
-    if not exp["secure"] and not allow:
-        return "err InsecureUrl"
     if external:
         auth = "external"
     else:
